@@ -510,9 +510,6 @@ pub fn parse_rt_case_line(line: &str) -> Result<Option<RtCase>, String> {
         .map_err(|_| format!("bad case id `{}`", head[2]))?;
     let family = head[3].to_string();
     let ops = parse_ops(parts[1])?;
-    if ops.iter().any(|o| !matches!(o, Op::F { .. } | Op::L(..) | Op::C(..) | Op::LB(..) | Op::CB(..))) {
-        return Err("unsupported op".to_string());
-    }
     let body = match kind {
         'X' => {
             if parts.len() != 4 {
